@@ -1066,3 +1066,20 @@ M('C17', 'rf-gasops14-require-member-passes-outsider', MEM, "            Self::M
 M('C17', 'rf-gasops14-expel-admits', MEM, "        self.storage().instance().remove(&entry(account));", "        self.storage().instance().set(&entry(account), &true);", 'C17', base='gasops-14')
 M('C15', 'rf-gasops14-ensure-not-at-inverted', 'contracts/upgrader/src/contract.rs', "        if self.version() == *version {\n            return Err(ContractError::SameVersion);", "        if self.version() != *version {\n            return Err(ContractError::SameVersion);", 'C15', base='gasops-14')
 M('C15', 'rf-gasops14-no-post-check', 'contracts/upgrader/src/contract.rs', "        target.ensure_at(&new_version)", "        let _ = &new_version;\n        Ok(())", 'C15', base='gasops-14')
+
+# ---------------- adaptor / consumer expansion (own equivalents + defects in them) ----------------
+_VS_LOOP = "    for signer in weighted_signers.signers.iter() {"
+M('C03', 'eq-validate_signers-enumerate', AUTH, _VS_LOOP, "    for (_index, signer) in weighted_signers.signers.iter().enumerate() {", equiv=True)
+M('C03', 'eq-validate_signers-inspect-take_while', AUTH, _VS_LOOP, "    for signer in weighted_signers.signers.iter().inspect(|_| ()).take_while(|_| true) {", equiv=True)
+M('C03', 'enumerate-skips-order-check-of-first', AUTH, "        ensure!(\n            previous_signer < signer.signer,\n            ContractError::InvalidSigners\n        );",
+  "        ensure!(\n            index == 0 || previous_signer < signer.signer,\n            ContractError::InvalidSigners\n        );", 'C03.R1')
+MUTANTS[-1]['also'] = [(_VS_LOOP, "    for (index, signer) in weighted_signers.signers.iter().enumerate() {")]
+M('C03', 'take_while-stops-checking-early', AUTH, _VS_LOOP, "    for signer in weighted_signers.signers.iter().take_while(|s| s.weight != 0) {", 'C03.R1')
+M('C01', 'eq-validate_signatures-find_map', AUTH,
+  "    false\n}\n", "    false\n}\n\n#[allow(dead_code)]\nfn first_signed(proof: &Proof) -> Option<BytesN<64>> {\n    proof.signers.iter().find_map(|s| match s.signature {\n        ProofSignature::Signed(sig) => Some(sig),\n        ProofSignature::Unsigned => None,\n    })\n}\n", equiv=True)
+M('C01', 'eq-validate_signatures-as-any', AUTH,
+  "    for ProofSigner {\n        signer: WeightedSigner {\n            signer: public_key,\n            weight,\n        },\n        signature,\n    } in proof.signers.iter()\n    {\n        if let ProofSignature::Signed(signature) = signature {\n            env.crypto()\n                .ed25519_verify(&public_key, msg_hash.to_bytes().as_ref(), &signature);\n\n            total_weight = total_weight.checked_add(weight).unwrap();\n\n            if total_weight >= proof.threshold {\n                return true;\n            }\n        }\n    }\n\n    false\n}",
+  "    proof\n        .signers\n        .iter()\n        .position(|ProofSigner { signer: WeightedSigner { signer: public_key, weight }, signature }| {\n            let ProofSignature::Signed(signature) = signature else {\n                return false;\n            };\n            env.crypto()\n                .ed25519_verify(&public_key, msg_hash.to_bytes().as_ref(), &signature);\n            total_weight = total_weight.checked_add(weight).unwrap();\n            total_weight >= proof.threshold\n        })\n        .is_some()\n}", equiv=True)
+M('C01', 'position-counts-unsigned', AUTH,
+  "    for ProofSigner {\n        signer: WeightedSigner {\n            signer: public_key,\n            weight,\n        },\n        signature,\n    } in proof.signers.iter()\n    {\n        if let ProofSignature::Signed(signature) = signature {\n            env.crypto()\n                .ed25519_verify(&public_key, msg_hash.to_bytes().as_ref(), &signature);\n\n            total_weight = total_weight.checked_add(weight).unwrap();\n\n            if total_weight >= proof.threshold {\n                return true;\n            }\n        }\n    }\n\n    false\n}",
+  "    proof\n        .signers\n        .iter()\n        .position(|ProofSigner { signer: WeightedSigner { signer: public_key, weight }, signature }| {\n            if let ProofSignature::Signed(signature) = signature {\n                env.crypto()\n                    .ed25519_verify(&public_key, msg_hash.to_bytes().as_ref(), &signature);\n            }\n            total_weight = total_weight.checked_add(weight).unwrap();\n            total_weight >= proof.threshold\n        })\n        .is_some()\n}", 'C01')
